@@ -36,13 +36,32 @@ fn ng_string(ng: &NoGood, n: usize) -> String {
     interp_string(&ng.update_term_vec(&base, &mut upd))
 }
 
-pub fn heuristic_of(name: &str) -> Heuristic<'static> {
-    match name {
+pub fn heuristic_of(q: &[String]) -> Heuristic<'static> {
+    match q[0].as_str() {
         "Simple" => Heuristic::Simple,
         "MinModMinPathsMaxVarImp" => Heuristic::MinModMinPathsMaxVarImp,
         "MinModMaxVarImpMinPaths" => Heuristic::MinModMaxVarImpMinPaths,
         "Rand" => Heuristic::Rand,
-        _ => panic!("unknown heuristic {}", name),
+        "Static" => {
+            // custom heuristic: first undecided position in the given order, value from the table
+            let order: Vec<usize> = q[1].split(',').map(|x| x.parse().unwrap()).collect();
+            let vals: Vec<bool> = q[2].chars().map(|c| c == '1').collect();
+            let f: Box<adf_bdd::adf::heuristics::HeuristicFn> = Box::new(move |_adf: &Adf, interp: &[Term]| {
+                for &i in order.iter() {
+                    if i < interp.len() && !interp[i].is_truth_value() {
+                        return Some((Var(i), Term::from(*vals.get(i).unwrap_or(&true))));
+                    }
+                }
+                for (i, t) in interp.iter().enumerate() {
+                    if !t.is_truth_value() {
+                        return Some((Var(i), Term::TOP));
+                    }
+                }
+                None
+            });
+            Heuristic::Custom(Box::leak(f))
+        }
+        _ => panic!("unknown heuristic {:?}", q),
     }
 }
 
@@ -57,12 +76,12 @@ pub fn adf_query(id: &str, qid: &str, q: &[String], adf: &mut Adf, _parser: &Adf
             writeln!(out, "{} {} stmcb {}", id, qid, interps_string(&l)).unwrap();
         }
         "stmng" => {
-            let l: Vec<Vec<Term>> = adf.stable_nogood(heuristic_of(&q[1])).collect();
+            let l: Vec<Vec<Term>> = adf.stable_nogood(heuristic_of(&q[1..])).collect();
             writeln!(out, "{} {} stmng {}", id, qid, interps_string(&l)).unwrap();
         }
         "twoval" => {
             let (s, r) = crossbeam_channel::unbounded();
-            adf.two_val_nogood_channel(heuristic_of(&q[1]), s);
+            adf.two_val_nogood_channel(heuristic_of(&q[1..]), s);
             let l: Vec<Vec<Term>> = r.iter().collect();
             writeln!(out, "{} {} twoval {}", id, qid, interps_string(&l)).unwrap();
         }
